@@ -119,3 +119,10 @@ def hole2(n, p):
     e = {(i, c) for i in range(n) for c in range(n) if abs(i - c) <= 1}
     e -= {(q, p), (r, q)}; e = {(i, c) for (i, c) in e if c != r} | {(p, r), (r, p)}
     return pat_bits(n, n, e)
+
+
+def permute_columns(n, pat, perm_c):
+    """pattern A with A[:, j] = H[:, perm_c[j]]: factoring A under the column permutation perm_c (perm_c[j] = new position of column j) meets the structure of H"""
+    e = pat_entries(n, n, pat); inv = [0] * n
+    for j in range(n): inv[perm_c[j]] = j
+    return pat_bits(n, n, [(i, inv[c]) for (i, c) in e])
